@@ -18,3 +18,5 @@ open Cst.C02
 #print axioms Cst.Gen.nd_text_range
 #print axioms Cst.Gen.it_new
 #print axioms Cst.Gen.it_next
+#print axioms Cst.Gen.children_new
+#print axioms Cst.Gen.ec_next
